@@ -69,4 +69,10 @@ for cval in [0.0, 1.0, 0.1, 0.3, 7.7, -2.6, 1e10 / 3, 1e-7, 123456.789]:
             q = Q.quantize_real(x, target_mean=tm, target_std=13.6, num_bits=8)
             R.check('zero-variance/maps-to-target-mean', dict(const=cval, n=n, target_mean=tm), bool(np.all(q == tm)) and not np.any(np.isnan(q)),
                     [int(q.min()), int(q.max())], tm)
+# numeric extremes: huge finite samples saturate at the ends of the code range (and keep the order), with explicit statistics
+for b in (2, 4, 8):
+    for big in (1e19, 1e25, 1e300):
+        x = np.array([-big, -3.0, -0.2, 0.0, 0.4, 2.0, big])
+        q = Q.quantize_real(x, target_mean=0, target_std=2 ** (b - 2), num_bits=b, data_mean=0.0, data_std=1.0)
+        R.check('quantize_real/extremes-saturate-and-stay-ordered', dict(bits=b, big=big), q[0] == -2 ** (b - 1) and q[-1] == 2 ** (b - 1) - 1 and bool(np.all(np.diff(q) >= 0)), [int(v) for v in q])
 R.finish()
